@@ -26,7 +26,12 @@ import traceback
 VERIF = os.path.dirname(os.path.dirname(os.path.abspath(__file__)))
 REPO = os.environ.get("VERIF_REPO", "/repo")
 LEAN = os.path.join(VERIF, "lean")
-DRIVER = os.path.join(LEAN, ".lake", "build", "bin", "driver")
+DRIVER = os.path.join(LEAN, ".lake", "build", "bin", "driver")   # legacy single driver (unused)
+CURRENT_ID = None   # set by run(): the property whose driver executable Driver() talks to
+
+
+def driver_path(pid=None):
+    return os.path.join(LEAN, ".lake", "build", "bin", f"driver_{pid or CURRENT_ID}")
 ALLOWED_AXIOMS = {"propext", "Classical.choice", "Quot.sound"}
 FORBIDDEN = re.compile(r"\bsorry\b|\badmit\b|^axiom |native_decide|bv_decide|implemented_by|unsafe |maxHeartbeats 0")
 
@@ -183,14 +188,15 @@ def leanchecker(modules):
 class Driver:
     """Pipes request lines to the compiled Lean driver, returns reply lines."""
 
-    def __init__(self):
-        self.ok = os.path.exists(DRIVER)
+    def __init__(self, pid=None):
+        self.path = driver_path(pid)
+        self.ok = os.path.exists(self.path)
 
     def run(self, lines, timeout=3000):
         if not lines:
             return []
         data = "\n".join(lines) + "\n"
-        p = subprocess.run([DRIVER], input=data, capture_output=True, text=True, timeout=timeout)
+        p = subprocess.run([self.path], input=data, capture_output=True, text=True, timeout=timeout)
         if p.returncode != 0:
             raise RuntimeError("driver failed: " + p.stderr[-500:])
         out = p.stdout.split("\n")
@@ -253,6 +259,8 @@ def run(mod, argv=None):
     seed = int(os.environ.get("VERIF_SEED", "0") or 0)
     t0 = time.time()
     pid = mod.ID
+    global CURRENT_ID
+    CURRENT_ID = pid
     ctx = Ctx(pid, tier, seed)
     try:
         code = _run(mod, ctx, t0)
@@ -281,12 +289,13 @@ def _run(mod, ctx, t0):
     # 2. build (templates and driver are re-instantiated first; no-op when unchanged)
     from harness import instantiate
     instantiate.main()
-    ok, log = lake_build(list(mod.LEAN_TARGETS) + ["driver"])
+    drv = f"driver_{pid}"
+    ok, log = lake_build(list(mod.LEAN_TARGETS) + [drv])
     if not ok:
         ctx.say(f"[{pid}] lake build FAILED")
         print(log[-3000:])
         # which part? try the driver alone so the correspondence can still run
-        dok, _ = lake_build(["driver"])
+        dok, _ = lake_build([drv])
         for d in failing_decls(log):
             ctx.broken.append("build: " + d)
         if not ctx.broken:
